@@ -1193,7 +1193,8 @@ func main() {
 			pkgs = append(pkgs, &extractor.Package{Name: nm[1], Version: "1.0", Locations: []string{"lock/" + t},
 				Metadata: &fakeMeta{purl: pu}, Extractor: fakeExtractor{name: "fake/" + t}})
 		}
-		c := &caseJ{Stream: "synthetic-per-type", Emitted: false}
+		// acceptance by purl.FromString is claimed here too: a package of an emitted type with a well-formed name
+		c := &caseJ{Stream: "synthetic-per-type", Emitted: true}
 		if evs := observe(c, pkgs); evs != nil {
 			allPanics = append(allPanics, evs...)
 			continue
